@@ -2,6 +2,46 @@
 """Fill the hand-written 'what' / 'needs' fields of seeded/<id>/meta.json and print the DESIGN table."""
 import json, os, glob
 INFO = {
+ "C01-3": ("kernel_iq.c restores the shell-volume sum from the form-volume slot on re-entry (FQ variant)", "hollow model with Fq AND 1-D AND mesh > 100 points"),
+ "C01-4": ("make_details pd_stride built from lengths instead of cumulative products", "3 or more dispersed parameters AND mesh > 100 points (pure-Python models: any mesh)"),
+ "C02-3": ("degenerate-case guard npts < 2 becomes npts < 1", "exactly one point requested with a non-zero width"),
+ "C02-4": ("lognormal / schulz grids may include x = 0 (positive floor removed)", "PD*nsigmas == 1 exactly (grid hits zero)"),
+ "C03-3": ("pinhole_extend_q takes the q_calc limits from the first and last data point only", "a point other than the first/last has the widest window (non-monotone dq/q)"),
+ "C03-4": ("DataMixin chooses pinhole smearing only if all dx > 0 (was any)", "1-D data with mixed zero and positive dx through DirectModel / bumps / Iq()"),
+ "C04-3": ("width-only slit: in_x | abs_x on boolean masks loses the double weight of the folded interval", "width-only slit AND q < W"),
+ "C04-4": ("Pinhole2D q_phi = arctan2(qy, |qx|): the sign of qy is forgotten for qx < 0", "qx < 0 AND qy != 0 AND an intensity that is not mirror-symmetric in qy"),
+ "C05-3": ("kernel_iq.c no longer resets the jitter angles to zero", "2-D AND non-zero view angle AND enough dispersed sizes (3 triaxial / 4 symmetric) that the angles get no loop"),
+ "C05-4": ("one-point absolute distributions keep the view angle as centre", "orientation parameter with pd_n = 1, non-zero width, non-zero view angle, 2-D"),
+ "C06-3": ("mag_sld perpz written as a cross product with the y component in the wrong cyclic order", "spin-flip weight AND up_theta != 90 AND up_phi != 0 AND q off the qy axis"),
+ "C06-4": ("convert_magnetism converts only rows with M0 != 0", "one SLD with M0 != 0 AND another with M0 == 0 and non-zero mtheta/mphi"),
+ "C07-3": ("kernel_iq.c reloads the form-volume sum from the shell-volume slot on re-entry", "hollow P with Fq AND 1-D AND mesh > 100 points"),
+ "C07-4": ("volfraction-owned-by-P correction applied to last_s instead of first_s", "P with volfraction (vesicle) AND S with parameters beyond radius_effective and volfraction"),
+ "C08-3": ("mixture magnetic offset advances by the number of SLD kernel parameters, not expanded slots", "2-D AND non-zero M0 AND a vector-SLD component that is not last"),
+ "C08-4": ("sum components with scale <= 0 are skipped", "a sum with a negative part scale (difference of models)"),
+ "C09-3": ("PyKernel parameter vector sized npars instead of call_parameters-2", "pure-Python model with an SLD parameter AND a dispersed parameter"),
+ "C09-4": ("contains_shell_volume tested before inline string bodies are turned into functions", "C model whose shell_volume is a body string in the definition file"),
+ "C10-3": ("pd_1d / pd_2d built from kernel parameters: expanded vector elements dropped", "dispersity on a vector element (core_multi_shell, onion, spherical_sld) through the direct interfaces"),
+ "C10-4": ("SasviewModel.setParam accepts any suffix on a dispersible parameter", "dotted name with a wrong suffix on a visible dispersible parameter"),
+ "C11-3": ("SasviewModel.clone copies its tables shallowly", "clone, then setParam on a dotted dispersity name of one, then evaluate the other"),
+ "C11-4": ("Kernel.Fq skips the division (and with it the copy) when the total weight is 1", "compiled kernel, Fq path, total weight exactly 1, a later call on the same kernel while the first result is still held"),
+ "C12-3": ("core_shell_ellipsoid Iqac drops x_polar_shell from the polar shell radius", "x_polar_shell != 1"),
+ "C12-4": ("hollow_rectangular_prism Fq uses a_half for the inner b width", "b2a_ratio != 1 AND thickness > 0"),
+ "C13-3": ("wrc_cyl.c Debye term argument loses one factor of q", "flexible_cylinder with length <= 4 kuhn_length AND q kuhn_length <= 3"),
+ "C13-4": ("kernel_iq.c reloads the effective-radius sum from the shell-volume slot on re-entry", "mesh > 100 points AND R_eff requested AND a C model defining radius_effective"),
+ "C14-3": ("kernel_iq.c restarts weight_norm from 0 on re-entry (FQ variant)", "mesh > 100 points through call_Fq"),
+ "C14-4": ("belt_rough Fq drops the roughness factor from <F> only", "sigma > 0 with q*sigma of a few units"),
+ "C15-3": ("PyInput 2-D q buffer built as float64 whatever the kernel precision", "non-double precision AND 2-D q"),
+ "C15-4": ("_fix_tgmath_int moved after the literal tagging", "non-double precision AND a math call with an integer literal first argument"),
+ "C16-3": ("TRANSLATION_VARS hoisted out of the dispersity loop", "translation with an intermediate variable AND a dispersed parameter feeding it"),
+ "C16-4": ("volume macros guarded by the new table's volume parameters", "every base volume parameter replaced AND no new parameter typed volume"),
+ "C17-3": ("load_dll keeps one wrapper per library path in the process", "same process AND an edit that leaves the generated C unchanged (a default) AND evaluation with defaults"),
+ "C17-4": ("modification times in the future are treated as 0", "files stamped ahead of the process clock, same-process reload"),
+ "C18-3": ("fixed name <final>_part.so for the library being built", "two processes building the same model at once"),
+ "C18-4": ("predictable name for the generated C source, tolerant removal", "one process deletes the shared source before the other's compiler opens it"),
+ "C19-3": ("acceptance mask uses max(lam) for every point", "non-constant wavelength AND limiting acceptance"),
+ "C19-4": ("background forced to zero only in the non-SESANS branch", "SESANS data with non-zero effective background"),
+ "C20-3": ("vector expansion overwrites explicitly listed elements", "spherical_sld / unified_power_Rg / rpa rows that list their elements one by one"),
+ "C20-4": ("_is_sld no longer recognises numbered vector SLD elements", "per-shell SLDs of 3.x core_multi_shell / onion / spherical_sld sets"),
  "C04-1": ("pinhole lower window limit computed with the upper multiplier (symmetric +-3 sigma)", "pinhole smearing on a grid that has points between -3 and -2.5 sigma (supplied q_calc) AND an intensity with non-zero slope"),
  "C04-2": ("slit width-only reflected weight abs(qi) - l: the fold of |q+v| is dropped", "width-only slit AND a data point with q < W AND a non-constant intensity"),
  "C12-1": ("elliptical_cylinder Iqabc loses the square on the axis ratio", "axis_ratio != 1 AND qb != 0 AND q*r_major >= 1"),
